@@ -63,11 +63,11 @@ func TestC14(t *testing.T) {
 	_, carveNames := carveFor("C14")
 	r.Meta(vc.Meta{
 		Level:       "exploration",
-		Rule:        "case = one encoded stream (3 signals, zstd on/off; shapes: small hostile batches, 3,000-5,000-item batches, growing retained dictionaries, long strings, schema evolution) decoded by consumers created with a ladder of 16 memory limits from 1 byte to 70 MiB placed around the stream's measured peak, plus 2^32, 2^63-1, 2^63 and 2^64-1. Oracle per (stream, limit): no panic; the running sum of arrow_memory_inuse deltas published to the supplied MeterProvider stays within [0, limit] after every call; the first error on a stream whose control run succeeded satisfies errors.Is(err, ErrConsumerMemoryLimit); batches decoded successfully equal the encoded telemetry; metamorphic: the number of batches decoded before the first refusal is monotone in the limit. Non-trivial (stream, limit) = at least one batch decoded and one refused. Distinct = (shape, signal, zstd, #decoded, limit bucket).",
+		Rule:        "case = one encoded stream (3 signals, zstd on/off; shapes: small hostile batches, 3,000-5,000-item batches, growing retained dictionaries, long strings, schema evolution) decoded by consumers created with a ladder of 16 memory limits from 1 byte to 70 MiB placed around the stream's measured peak, plus 2^32, 2^63-1, 2^63 and 2^64-1. Oracle per (stream, limit): no panic; the running sum of arrow_memory_inuse deltas published to the supplied MeterProvider stays within [0, limit] after every call; the first error on a stream whose control run succeeded satisfies errors.Is(err, ErrConsumerMemoryLimit); batches decoded successfully equal the encoded telemetry; metamorphic: the number of batches decoded before the first refusal is monotone in the limit. Layer 'two-streams': a big batch then a small one (a subset of it, re-keyed so that it opens new streams of the same payload types) on one consumer, scanned over 49 limits between half the small batch's need and 1.25 x the big batch's peak: each of the two, once decodable under a limit, must be decodable (same telemetry) under every larger one - also where the big batch was refused after some of its payloads had been decoded. Non-trivial (stream, limit) = at least one batch decoded and one refused. Distinct = (shape, signal, zstd, #decoded, limit bucket).",
 		Assumptions: []string{"in-use memory is observed through the metric the consumer itself publishes (arrow_memory_inuse), at call boundaries", "later errors on a consumer that already refused a batch are only required not to panic"},
 		Gates: map[string]map[string]int{
-			"quick":    {"pairs": 400, "first_refusals_recognised": 100, "pairs_some_decoded_some_refused": 20},
-			"thorough": {"pairs": 6000, "first_refusals_recognised": 1500, "pairs_some_decoded_some_refused": 300},
+			"quick":    {"pairs": 400, "first_refusals_recognised": 100, "pairs_some_decoded_some_refused": 20, "two_stream_limits_with_the_big_batch_refused_after_its_first_payload": 30},
+			"thorough": {"pairs": 6000, "first_refusals_recognised": 1500, "pairs_some_decoded_some_refused": 300, "two_stream_limits_with_the_big_batch_refused_after_its_first_payload": 300},
 		},
 		Excluded: carveNames,
 	})
@@ -202,6 +202,125 @@ func TestC14(t *testing.T) {
 		}
 		if c.Idx < 20 {
 			c.Sample(map[string]any{"script": h.Script, "signal": h.Batches[0].Sig.String(), "zstd": o.Zstd, "batches": len(bars), "peak_bytes": peak, "limits": limits})
+		}
+	})
+	// "Raising the limit never turns a decodable batch into a refused one" across a refusal: a big batch B opens
+	// one stream, then a small batch S - a subset of B's items, encoded by its own producer, its schema ids
+	// prefixed so that it opens NEW streams of the same payload types - arrives at the same consumer. Scanned
+	// over 48 limits between half of S's need and 1.25 x B's peak: where B is refused on its FIRST payload
+	// nothing of it remains; where it is refused on a LATER payload the readers already fed stay open until S's
+	// payload of the same type retires them (S being payload-wise smaller than B, that is never more than B
+	// itself needed). So S, once decodable under some limit, must be decodable under every larger one, with
+	// the same telemetry - unless a refused batch keeps memory that is never given back.
+	r.Layer("two-streams", e.Pick(12, 120), func(c *vc.Case) {
+		sig := canon.Signal(c.Idx % 3)
+		g := gen.New(c.R, gen.DValid)
+		g.Carve, _ = carveFor("C14")
+		g.ZeroBias = 0.2
+		small := genBatch(g, sig, 40+c.R.IntN(60))
+		big := copyBatch(small)
+		extra := genBatch(g, sig, 200+c.R.IntN(300))
+		switch sig {
+		case canon.Traces:
+			extra.T.ResourceSpans().MoveAndAppendTo(big.T.ResourceSpans())
+		case canon.Logs:
+			extra.L.ResourceLogs().MoveAndAppendTo(big.L.ResourceLogs())
+		default:
+			extra.M.ResourceMetrics().MoveAndAppendTo(big.M.ResourceMetrics())
+		}
+		o := DefaultOpts()
+		o.Zstd = c.R.IntN(2)
+		enc := func(b Batch, prefix string) (*colarspb.BatchArrowRecords, *canon.Set) {
+			w, err := b.Canon()
+			if err != nil {
+				return nil, nil
+			}
+			s := NewStream(o)
+			defer s.Close()
+			bar, err, pi := s.Encode(b)
+			if err != nil || pi != nil {
+				return nil, nil
+			}
+			bar = CloneBar(bar)
+			for _, p := range bar.ArrowPayloads {
+				p.SchemaId = prefix + p.SchemaId
+			}
+			return bar, w
+		}
+		barB, wantB := enc(big, "a-")
+		barS, wantS := enc(small, "b-")
+		if barB == nil || barS == nil {
+			c.Count("producer_failed(not this property)", 1)
+			return
+		}
+		need := func(bar *colarspb.BatchArrowRecords, want *canon.Set) uint64 {
+			m := NewRecMeter()
+			ctl := arrow_record.NewConsumer(arrow_record.WithMeterProvider(m))
+			defer func() { _ = ctl.Close() }()
+			got, _, err, pi := DecodeWith(ctl, sig, CloneBar(bar))
+			if err != nil || pi != nil || canon.Compare(want, got) != nil {
+				return 0
+			}
+			return uint64(m.InuseMax)
+		}
+		needS, peakB := need(barS, wantS), need(barB, wantB)
+		if needS == 0 || peakB == 0 || peakB <= needS {
+			c.Count("control_failed(not this property)", 1)
+			return
+		}
+		lo, hi := needS/2, peakB+peakB/4
+		const steps = 48
+		var okSAt, okBAt uint64
+		mid := 0
+		w := func(L uint64, extra map[string]any) map[string]any {
+			x := witness(&History{Script: "two-streams", Batches: []Batch{big, small}}, 1, o, map[string]any{"limit_bytes": L, "need_of_small_alone": needS, "peak_of_big_alone": peakB})
+			for k, v := range extra {
+				x[k] = v
+			}
+			return x
+		}
+		for i := 0; i <= steps; i++ {
+			L := lo + (hi-lo)*uint64(i)/steps
+			m := NewRecMeter()
+			cons := arrow_record.NewConsumer(arrow_record.WithMemoryLimit(L), arrow_record.WithMeterProvider(m))
+			step := func(bar *colarspb.BatchArrowRecords, want *canon.Set, name string, okAt *uint64) bool {
+				got, _, err, pi := DecodeWith(cons, sig, CloneBar(bar))
+				if pi != nil {
+					c.Violation("consumer with memory limit: "+pi.Signature(), fmt.Sprintf("limit=%d batch=%s\n%s", L, name, pi.Value), w(L, nil))
+					return false
+				}
+				if m.Inuse < 0 || uint64(m.Inuse) > L {
+					c.Violation("reported arrow_memory_inuse outside [0, limit]", fmt.Sprintf("limit=%d inuse=%d after batch %s (err=%v)", L, m.Inuse, name, err), w(L, nil))
+				}
+				if err != nil {
+					if !errors.Is(err, arrow_record.ErrConsumerMemoryLimit) {
+						c.Violation("first refusal under a memory limit is not recognisable as ErrConsumerMemoryLimit: "+clip(stripNums(err.Error()), 100), fmt.Sprintf("limit=%d batch=%s err=%v", L, name, err), w(L, nil))
+					} else if *okAt != 0 {
+						c.Violation("raising the memory limit turned a decodable batch into a refused one",
+							fmt.Sprintf("batch %s (new streams) decodes under limit %d but is refused under limit %d: %v", name, *okAt, L, err), w(L, map[string]any{"decodable_under_limit": *okAt}))
+					}
+					return false
+				}
+				if *okAt == 0 {
+					*okAt = L
+				}
+				if d := canon.Compare(want, got); d != nil {
+					c.Violation("batch decoded under a memory limit differs from the encoded telemetry: "+d.Signature(1), strings.Join(d.Concrete, "\n"), w(L, nil))
+				}
+				return true
+			}
+			if !step(barB, wantB, "big", &okBAt) && m.LastRecords > 0 {
+				mid++
+			}
+			step(barS, wantS, "small", &okSAt)
+			_ = capture(func() { _ = cons.Close() })
+			c.Count("two_stream_limits_scanned", 1)
+		}
+		c.Count("two_stream_limits_with_the_big_batch_refused_after_its_first_payload", int64(mid))
+		c.FP("two-streams", sig.String(), fmt.Sprint(o.Zstd), fmt.Sprint(c.Idx))
+		c.Nontrivial(mid > 0)
+		if c.Idx < 6 {
+			c.Sample(map[string]any{"layer": "two-streams", "signal": sig.String(), "need_of_small_alone": needS, "peak_of_big_alone": peakB, "limits_scanned": steps + 1, "mid_batch_refusals_of_big": mid, "small_decodable_from": okSAt, "big_decodable_from": okBAt})
 		}
 	})
 }
